@@ -430,11 +430,16 @@ class Facts:
             import names
             if os.path.exists(names.BASELINE):
                 base = _baseline()
-                known = set(base.get(self.crate, {}).get('adts', {}))
+                badts = base.get(self.crate, {}).get('adts', {})
+                known = set(badts)
                 if known:
                     for path_, a in self.adts.items():
-                        if a.get('local') and a.get('crate') == self.crate and a['kind'] == 'struct' and path_ not in known and len(a['variants']) == 1 and len(a['variants'][0]['fields']) == 1:
-                            self.transparent.add(path_)
+                        if a.get('local') and a.get('crate') == self.crate and a['kind'] == 'struct' and len(a['variants']) == 1 and len(a['variants'][0]['fields']) == 1:
+                            b_ = badts.get(path_)
+                            # new, or an enum of the reference tree that became a newtype around another type (e.g. a hand-written mirror of
+                            # Option / Result / Poll replaced by a wrapper of the std type itself)
+                            if b_ is None or b_['kind'] != 'struct':
+                                self.transparent.add(path_)
         except Exception:
             self.transparent = set()
         self.impls = self.j['impls']
